@@ -34,6 +34,22 @@ theorem command_sequence (c : Cfg α) (cmds : List (Cmd α)) (h : ∀ k ∈ cmds
       (cmds.map Cmd.expected, { B := [], S := [] }, rest) :=
   Rp.command_sequence c cmds h rest
 
+/-- `extra_init_cmd` (of any number of lines) runs through `run_command` like every other command: whatever it printed, the commands that
+    follow still return exactly their own output -/
+theorem extra_init_cmd_then_sequence (c : Cfg α) (init : Cmd α) (cmds : List (Cmd α)) (hi : init.OK c) (h : ∀ k ∈ cmds, k.OK c)
+    (rest : List (Ev α)) :
+    (runSeq c ((init :: cmds).map (fun k => k.es.length)) { B := [], S := [] } (((init :: cmds).flatMap Cmd.evs) ++ rest)).1.tail
+      = cmds.map Cmd.expected ∧
+    (runSeq c ((init :: cmds).map (fun k => k.es.length)) { B := [], S := [] } (((init :: cmds).flatMap Cmd.evs) ++ rest)).2
+      = ({ B := [], S := [] }, rest) := by
+  have := Rp.command_sequence c (init :: cmds) (by
+    intro k hk
+    rcases List.mem_cons.mp hk with rfl | hk
+    · exact hi
+    · exact h k hk) rest
+  rw [this]
+  exact ⟨by simp, rfl⟩
+
 theorem async_same_value (c : Cfg α) (n : Nat) (acc : List α) (st : St α) (evs : List (AEv α)) :
     (runCommandA c n acc st evs).1 = (runCommand c n acc st (evs.map AEv.toEv)).1 ∧
     (runCommandA c n acc st evs).2.1 = (runCommand c n acc st (evs.map AEv.toEv)).2.1 ∧
